@@ -312,6 +312,9 @@ def guard_fact(fn, left_word, right_word, what, clamp=False, allow_offset=True, 
     return ("Guard", (op, off, canonical_guard(op, off, clamp, what)))
 
 
+FLOAT_ENV = {}  # names of the module being read -> ast value node (module-level constants and locals bound once)
+
+
 def float_const_eval(node):
     """value of a constant float expression built from numeric literals, + - * / **, unary minus and
     math.log / math.log2 / math.exp / math.pow / math.sqrt of such expressions (evaluated with the same
@@ -320,6 +323,12 @@ def float_const_eval(node):
 
     if isinstance(node, ast.Constant) and isinstance(node.value, (int, float)) and not isinstance(node.value, bool):
         return float(node.value)
+    if isinstance(node, ast.Name) and node.id in FLOAT_ENV:
+        val = FLOAT_ENV.pop(node.id)  # taken out while it is being evaluated: a name defined through itself is no constant
+        try:
+            return float_const_eval(val)
+        finally:
+            FLOAT_ENV[node.id] = val
     if isinstance(node, ast.UnaryOp) and isinstance(node.op, ast.USub):
         return -float_const_eval(node.operand)
     if isinstance(node, ast.BinOp):
@@ -370,6 +379,29 @@ def _strip_calls(node, names):
         else:
             break
     return node
+
+
+def _set_float_env(tree, fn):
+    """names a constant float expression may go through: module-level assignments and names bound exactly
+    once in fn (a name rebound anywhere is left out)"""
+    FLOAT_ENV.clear()
+    count = {}
+    val = {}
+    for scope in (tree.body, list(ast.walk(fn))):
+        for node in scope:
+            tgt = v = None
+            if isinstance(node, ast.Assign) and len(node.targets) == 1:
+                tgt, v = node.targets[0], node.value
+            elif isinstance(node, ast.AnnAssign) and node.value is not None:
+                tgt, v = node.target, node.value
+            elif isinstance(node, ast.AugAssign) and isinstance(node.target, ast.Name):
+                count[node.target.id] = count.get(node.target.id, 0) + 2
+            if isinstance(tgt, ast.Name):
+                count[tgt.id] = count.get(tgt.id, 0) + 1
+                val[tgt.id] = v
+    for nm, n in count.items():
+        if n == 1 and nm in val:
+            FLOAT_ENV[nm] = val[nm]
 
 
 def bloom_sizing_constants(fn):
@@ -646,6 +678,7 @@ def _extract_into(repo, facts, attempt):
     # float literals of the sizing formulas
     def bloom_floats():
         try:
+            _set_float_env(bloom, _find_def(bloom, "BloomFilter", "_get_optimized_params"))
             div, mul = bloom_sizing_constants(_find_def(bloom, "BloomFilter", "_get_optimized_params"))
             return [("Float", div), ("Float", mul)]
         except ExtractError:
@@ -661,6 +694,7 @@ def _extract_into(repo, facts, attempt):
 
     def cms_float():
         try:
+            _set_float_env(cms, _find_def(cms, "CountMinSketch", "__init__"))
             return ("Float", cms_depth_constant(_find_def(cms, "CountMinSketch", "__init__")))
         except ExtractError:
             pass
